@@ -638,7 +638,7 @@ pub fn soak_scenario(spec: &SoloSpec, seed: u64, k: u64) -> Scenario {
 /// seeded search: candidates are probed cheaply (800 opcodes) and ranked per dimension by what the
 /// reference machine R3 measures; the best ones are then run at scale.
 pub fn deep_count(spec: &SoloSpec, tier: Tier) -> u64 {
-    deep_base_count(spec, tier) + wide_count(spec, tier) + tail_variant_count(spec, tier) + sandwich_count(spec, tier) + pairdeep_count(spec, tier) + edge_count(spec, tier)
+    deep_base_count(spec, tier) + wide_count(spec, tier) + tail_variant_count(spec, tier) + sandwich_count(spec, tier) + pairdeep_count(spec, tier) + pairflat_count(spec, tier) + edge_count(spec, tier)
 }
 
 /// boundary-directed runs (threshold runs, argument sweeps, table sweeps): see edge.rs
@@ -689,6 +689,44 @@ pub fn pairdeep_count(spec: &SoloSpec, tier: Tier) -> u64 {
         (_, Tier::Quick) => 2,
         (_, Tier::Thorough) => 10,
     }
+}
+
+/// "flat long outputs": the opcode pairs that leave the stack as they found it (push / POP, push /
+/// pop-by-consumer ...), repeated until the output passes 128 KiB with an (almost) empty stack - the
+/// place where size-triggered housekeeping that waits for a quiet moment (re-framing between
+/// top-level objects, buffer flushes) would act. Framed and unframed for protocols >= 4.
+pub fn pairflat_count(spec: &SoloSpec, tier: Tier) -> u64 {
+    match (spec.prop, tier) {
+        ("C14", _) | ("C15", _) | ("C16", _) | ("C08", _) => 0,
+        ("C06", Tier::Quick) => 16,
+        ("C06", Tier::Thorough) => 80,
+        (_, Tier::Quick) => 4,
+        (_, Tier::Thorough) => 24,
+    }
+}
+
+fn pairflat_scenario(seed: u64, k: u64) -> Scenario {
+    let all = pair_patterns(seed);
+    // one group per pushing opcode and prefix shape, protocols 4 first (FRAME), candidate order inside
+    let mut groups: Vec<((&'static str, usize, bool), Vec<&PairPattern>)> = vec![];
+    for pp in all.iter().filter(|p| p.flat_bytes > 0 && p.nesting <= 2) {
+        let key = (pp.a, pp.prefix.len(), pp.protocol >= 4);
+        match groups.iter_mut().find(|g| g.0 == key) {
+            Some(g) => g.1.push(pp),
+            None => groups.push((key, vec![pp])),
+        }
+    }
+    groups.sort_by(|x, y| y.0 .2.cmp(&x.0 .2).then(x.0 .1.cmp(&y.0 .1)).then(x.0 .0.cmp(y.0 .0)));
+    if groups.is_empty() {
+        return Scenario::solo(Config::default_for(0), Entropy::Rand(k));
+    }
+    let g = &groups[(k as usize / 2) % groups.len()];
+    let round = (k as usize / 2) / groups.len();
+    let pp = g.1[round % g.1.len()];
+    // bytes per repetition from the probe (10 repetitions + header + tail): at least 2
+    let per = ((pp.flat_bytes as usize).saturating_sub(8) / PAIR_PROBE_REPS).max(2);
+    let reps = (140_000 / per).clamp(1_000, 70_000);
+    pp.scenario_compact_framed(reps, k % 2 == 0)
 }
 
 fn pairdeep_scenario(seed: u64, tier: Tier, k: u64) -> Scenario {
@@ -915,6 +953,9 @@ pub struct PairPattern {
     pub b: &'static str,
     pub unfolded_log2: u32,
     pub nesting: u32,
+    /// output bytes of the 10-repetition probe when the stack stayed flat (never more than 3 items,
+    /// at most 2 at the end), else 0
+    pub flat_bytes: u32,
 }
 
 pub const PAIR_VOCAB: [&str; 22] = [
@@ -922,7 +963,7 @@ pub const PAIR_VOCAB: [&str; 22] = [
 ];
 /// the last prefix stands for "as many MARKs as repetitions, plus 4" (a MARK for every DICT / LIST /
 /// TUPLE of the periodic phase to consume)
-pub const PAIR_PREFIXES: [&[&str]; 6] = [&["NONE"], &["MARK", "NONE"], &["EMPTY_TUPLE"], &["MARK", "EMPTY_TUPLE"], &["MARK*"], &["MARK*", "NONE"]];
+pub const PAIR_PREFIXES: [&[&str]; 7] = [&["NONE"], &["MARK", "NONE"], &["EMPTY_TUPLE"], &["MARK", "EMPTY_TUPLE"], &["MARK*"], &["MARK*", "NONE"], &[]];
 const PAIR_PROBE_REPS: usize = 10;
 
 impl PairPattern {
@@ -948,6 +989,9 @@ impl PairPattern {
     }
     /// the same program as a compact recipe (run-length tokens), for thousands of repetitions
     pub fn scenario_compact(&self, reps: usize) -> Scenario {
+        self.scenario_compact_framed(reps, false)
+    }
+    pub fn scenario_compact_framed(&self, reps: usize, framed: bool) -> Scenario {
         let mut ops: Vec<String> = if self.prefix.first() == Some(&"MARK*") {
             let mut v = vec![format!("MARK*{}", reps + 4)];
             v.extend(self.prefix[1..].iter().map(|s| s.to_string()));
@@ -956,6 +1000,9 @@ impl PairPattern {
             self.prefix.iter().map(|s| s.to_string()).collect()
         };
         ops.push(format!("({} {})*{}", self.a, self.b, reps));
+        if framed && self.protocol >= 4 {
+            ops.insert(0, "+FRAME".to_string());
+        }
         let n = self.prefix_len(reps) + 2 * reps;
         let mut sc = Scenario::solo(tree_config(self.protocol, n), Entropy::Bytes(vec![]));
         sc.steer = Some(desc::Steer { ops, tail: None });
@@ -999,7 +1046,7 @@ fn pair_candidates() -> Vec<(u8, usize, &'static str, &'static str)> {
 
 /// probe one pair pattern: steer prefix + (a b)^10 through the real generator, measure with R3
 fn probe_pair(p: u8, pi: usize, a: &'static str, b: &'static str) -> Option<PairPattern> {
-    let mut pp = PairPattern { protocol: p, prefix: PAIR_PREFIXES[pi].to_vec(), a, b, unfolded_log2: 0, nesting: 0 };
+    let mut pp = PairPattern { protocol: p, prefix: PAIR_PREFIXES[pi].to_vec(), a, b, unfolded_log2: 0, nesting: 0, flat_bytes: 0 };
     let sc = pp.scenario(PAIR_PROBE_REPS, None);
     let recs = exec::run_scenario(&sc, Trace::Off, false);
     let out = recs.first()?.outcome.bytes()?;
@@ -1011,6 +1058,7 @@ fn probe_pair(p: u8, pi: usize, a: &'static str, b: &'static str) -> Option<Pair
     m.track_graph = true;
     m.lenient_memo = true;
     let mut best = 0;
+    let mut max_stack = 0usize;
     // measured before the generator's own cleanup tail: header + prefix + 2*reps opcodes
     let body = pp.prefix_len(PAIR_PROBE_REPS) + 2 * PAIR_PROBE_REPS;
     let header = ops.iter().take(2).filter(|o| o.name() == "PROTO" || o.name() == "FRAME").count();
@@ -1022,9 +1070,13 @@ fn probe_pair(p: u8, pi: usize, a: &'static str, b: &'static str) -> Option<Pair
             return None;
         }
         best = best.max(m.unfolded_log2());
+        max_stack = max_stack.max(m.stack.len());
     }
     pp.unfolded_log2 = best;
     pp.nesting = m.max_depth;
+    if max_stack <= 3 && m.stack.len() <= 2 && m.memo.len() <= 1 {
+        pp.flat_bytes = out.len() as u32;
+    }
     Some(pp)
 }
 
@@ -1043,7 +1095,7 @@ pub fn pair_patterns(seed: u64) -> &'static Vec<PairPattern> {
                                 .filter_map(|e| {
                                     let i = e[0].as_u64()? as usize;
                                     let (p, pi, a, b) = *cands.get(i)?;
-                                    Some(PairPattern { protocol: p, prefix: PAIR_PREFIXES[pi].to_vec(), a, b, unfolded_log2: e[1].as_u64()? as u32, nesting: e[2].as_u64()? as u32 })
+                                    Some(PairPattern { protocol: p, prefix: PAIR_PREFIXES[pi].to_vec(), a, b, unfolded_log2: e[1].as_u64()? as u32, nesting: e[2].as_u64()? as u32, flat_bytes: e[3].as_u64().unwrap_or(0) as u32 })
                                 })
                                 .collect();
                             return out;
@@ -1064,7 +1116,7 @@ pub fn pair_patterns(seed: u64) -> &'static Vec<PairPattern> {
                             let (p, pi, a, b) = cands[i];
                             pair_progress(i, true);
                             if let Some(pp) = probe_pair(p, pi, a, b) {
-                                if pp.unfolded_log2 >= 6 || pp.nesting >= 8 {
+                                if pp.unfolded_log2 >= 6 || pp.nesting >= 8 || pp.flat_bytes > 0 {
                                     out.push((i, pp));
                                 }
                             }
@@ -1101,7 +1153,7 @@ fn pair_progress(i: usize, begin: bool) {
 /// the probe run of pair candidate `i` as a scenario (attribution of a dead probing child)
 pub fn pair_probe_scenario(i: usize) -> Option<Scenario> {
     let (p, pi, a, b) = *pair_candidates().get(i)?;
-    Some(PairPattern { protocol: p, prefix: PAIR_PREFIXES[pi].to_vec(), a, b, unfolded_log2: 0, nesting: 0 }.scenario(PAIR_PROBE_REPS, None))
+    Some(PairPattern { protocol: p, prefix: PAIR_PREFIXES[pi].to_vec(), a, b, unfolded_log2: 0, nesting: 0, flat_bytes: 0 }.scenario(PAIR_PROBE_REPS, None))
 }
 
 /// when PFSIM_PROBE_PROGRESS is set (the isolated probing child of the C09 check) every probe is
@@ -1321,7 +1373,7 @@ pub fn export_deep_patterns_to(seed: u64, path: &str) {
     let pairs = pair_patterns(seed);
     let idx = PAIR_INDEX.get().cloned().unwrap_or_default();
     let doc = json!({"seed": seed.to_string(), "patterns": pats.iter().map(|p| json!([p.protocol, desc::hex(&p.pat), p.score.to_vec(), p.once, desc::hex(&p.pre)])).collect::<Vec<_>>(),
-        "pairs": pairs.iter().zip(idx.iter()).map(|(p, i)| json!([i, p.unfolded_log2, p.nesting])).collect::<Vec<_>>()});
+        "pairs": pairs.iter().zip(idx.iter()).map(|(p, i)| json!([i, p.unfolded_log2, p.nesting, p.flat_bytes])).collect::<Vec<_>>()});
     if std::fs::write(&path, doc.to_string()).is_ok() {
         std::env::set_var("PFSIM_DEEP_FILE", &path);
     }
@@ -1389,11 +1441,15 @@ pub fn deep_scenario(spec: &SoloSpec, seed: u64, tier: Tier, k: u64) -> Scenario
     let tails = tail_variant_count(spec, tier);
     let sandwich = sandwich_count(spec, tier);
     let pairdeep = pairdeep_count(spec, tier);
+    let pairflat = pairflat_count(spec, tier);
     if k >= base + wide + tails + sandwich && k < base + wide + tails + sandwich + pairdeep {
         return pairdeep_scenario(seed, tier, k - base - wide - tails - sandwich);
     }
-    if k >= base + wide + tails + sandwich + pairdeep {
-        let e = k - base - wide - tails - sandwich - pairdeep;
+    if k >= base + wide + tails + sandwich + pairdeep && k < base + wide + tails + sandwich + pairdeep + pairflat {
+        return pairflat_scenario(seed, k - base - wide - tails - sandwich - pairdeep);
+    }
+    if k >= base + wide + tails + sandwich + pairdeep + pairflat {
+        let e = k - base - wide - tails - sandwich - pairdeep - pairflat;
         let thr = crate::edge::threshold_count(spec, tier);
         let args = crate::edge::argsweep_count(spec, tier);
         return if e < thr {
@@ -2090,6 +2146,11 @@ fn tree_run(protocol: u8, script: &[u8], depth: usize, trace: Trace) -> (Scenari
         }
     }
     (sc, recs, ops, consumed)
+}
+
+/// the same with a chosen trace level (runs that are also judged by an oracle)
+pub fn tree_probe_with(protocol: u8, script: &[u8], depth: usize, trace: Trace) -> (Scenario, Vec<CallRecord>, Vec<u8>, usize) {
+    tree_run(protocol, script, depth, trace)
 }
 
 /// public probe used by the program synthesiser's steering
